@@ -9,4 +9,11 @@ require (
 	golang.org/x/crypto v0.35.0
 )
 
+require (
+	git.schwanenlied.me/yawning/x448.git v0.0.0-20170617130356-01b048fb03d6 // indirect
+	github.com/bwesterb/go-ristretto v1.2.3 // indirect
+	github.com/cisco/go-tls-syntax v0.0.0-20200617162716-46b0cfb76b9b // indirect
+	golang.org/x/sys v0.30.0 // indirect
+)
+
 replace github.com/cloudflare/pat-go => /repo
